@@ -184,6 +184,11 @@ func receiveFromTransport(ctx context.Context, c *channel, done chan<- struct{})
 		if err != nil {
 			if ctx.Err() == nil {
 				log.Printf("receiveFromTransport: %v", err)
+				if c.client {
+					// Nothing can be received on this session anymore, so it should not be
+					// reported as established: the client has to establish a new one.
+					c.setStateWLock(SessionStateFailed)
+				}
 			}
 			return
 		}
